@@ -77,6 +77,14 @@ def main() -> int:
     out = ROOT / ".work" / "seeded_last.json"
     out.parent.mkdir(exist_ok=True)
     out.write_text(json.dumps(rows, indent=1))
+    # results of all runs, merged by name (a run without --tests/--demo keeps the earlier answers)
+    allp = ROOT / ".work" / "seeded_results.json"
+    merged = json.loads(allp.read_text()) if allp.exists() else {}
+    for r in rows:
+        old = merged.get(r["name"], {})
+        res = {**old.get("results", {}), **r.get("results", {})}
+        merged[r["name"]] = {**old, **r, "results": res}
+    allp.write_text(json.dumps(merged, indent=1))
     return 0
 
 
